@@ -232,6 +232,75 @@ pub fn alphabet_texts() -> Vec<&'static str> {
   ]
 }
 
+/// Ranges as operands: every closedness combination in every spelling (`[a..b] (a..b] [a..b) (a..b)` and the
+/// reversed-bracket spellings `]a..b] [a..b[ ]a..b[`), over endpoint pairs of every kind that has endpoints
+/// (numbers incl. equal values of different scale, strings, dates, times, date-times, both durations), pairs that
+/// share one endpoint and differ in the other, a single-point range, endpoints of two kinds; lists of one range.
+pub fn range_texts() -> Vec<String> {
+  let endpoints: Vec<(&str, &str)> = vec![
+    ("1", "2"),
+    ("1.0", "2.00"),
+    ("1", "3"),
+    ("0", "2"),
+    ("2", "2"),
+    (r#""a""#, r#""b""#),
+    (r#""a""#, r#""c""#),
+    (r#"date("2021-02-03")"#, r#"date("2021-02-04")"#),
+    (r#"date("2020-02-29")"#, r#"date("2021-02-04")"#),
+    (r#"time("10:11:12")"#, r#"time("10:11:13")"#),
+    (r#"date and time("2021-02-03T10:11:12")"#, r#"date and time("2021-02-04T00:00:00")"#),
+    (r#"duration("PT1H")"#, r#"duration("P1D")"#),
+    (r#"duration("PT1H")"#, r#"duration("PT24H")"#),
+    (r#"duration("P1M")"#, r#"duration("P1Y")"#),
+    (r#"duration("P1M")"#, r#"duration("P12M")"#),
+    ("1", r#""b""#),
+  ];
+  let mut out = vec![];
+  for (k, (lo, hi)) in endpoints.iter().enumerate() {
+    for (l, r) in [("[", "]"), ("(", "]"), ("[", ")"), ("(", ")")] {
+      // `[1..2]` and `(1..2]` are in the fixed alphabet already
+      if k == 0 && r == "]" {
+        continue;
+      }
+      out.push(format!("{}{}..{}{}", l, lo, hi, r));
+    }
+    if k == 0 || k == 5 {
+      for (l, r) in [("]", "]"), ("[", "["), ("]", "[")] {
+        out.push(format!("{}{}..{}{}", l, lo, hi, r));
+      }
+    }
+  }
+  for t in ["[[1..2)]", "[(1..2)]", "[[1..2],[1..2)]", "{a:[1..2)}", "{a:[1..2]}"] {
+    out.push(t.to_string());
+  }
+  out
+}
+
+/// The values `=` is defined on (Lean `Comparable`): no range, function or unary comparison inside, every time and
+/// date-time with a position on the UTC line.  Read from the value alone.
+fn comparable(v: &Value) -> bool {
+  match v {
+    Value::Null(_) | Value::Boolean(_) | Value::Number(_) | Value::String(_) | Value::Date(_) | Value::DaysAndTimeDuration(_) | Value::YearsAndMonthsDuration(_) => true,
+    Value::Time(_) | Value::DateTime(_) => ordered_kind(v).is_some(),
+    Value::List(items) => items.as_vec().iter().all(comparable),
+    Value::Context(ctx) => ctx.get_entries().iter().all(|(_, x)| comparable(x)),
+    _ => false,
+  }
+}
+
+/// what kind of operand (for signatures that do not vary with the data)
+fn operand_class(v: &Value) -> &'static str {
+  match v {
+    Value::Range(..) => "range",
+    Value::UnaryLess(_) | Value::UnaryLessOrEqual(_) | Value::UnaryGreater(_) | Value::UnaryGreaterOrEqual(_) => "unary comparison",
+    Value::List(_) => "list",
+    Value::Context(_) => "context",
+    Value::FunctionDefinition(..) => "function",
+    Value::Null(_) => "null",
+    _ => "simple value",
+  }
+}
+
 /// the single item of a list of one item
 fn single_item(v: &Value) -> Option<&Value> {
   match v {
@@ -256,6 +325,26 @@ pub fn run(cfg: &Cfg) -> Report {
       rep.notes.push(format!("alphabet text {} evaluates to an error null", t));
     }
     alphabet.push((t.to_string(), v));
+  }
+  for t in range_texts() {
+    let v = eval_text(&empty, &t);
+    match v {
+      Value::Null(_) => rep.notes.push(format!("range text {} evaluates to null", t)),
+      _ => alphabet.push((t, v)),
+    }
+  }
+  // unary comparisons as values (what `< 5` is inside a list of tests; `a in b` reads them), a range with a null
+  // endpoint: constructed through the public API
+  {
+    let num = |n: i128| Value::Number(FeelNumber::new(n, 0));
+    for (nm, x) in [("1", num(1)), ("2", num(2)), ("\"a\"", Value::String("a".into()))] {
+      alphabet.push((format!("(< {})", nm), Value::UnaryLess(Box::new(x.clone()))));
+      alphabet.push((format!("(<= {})", nm), Value::UnaryLessOrEqual(Box::new(x.clone()))));
+      alphabet.push((format!("(> {})", nm), Value::UnaryGreater(Box::new(x.clone()))));
+      alphabet.push((format!("(>= {})", nm), Value::UnaryGreaterOrEqual(Box::new(x.clone()))));
+    }
+    alphabet.push(("[null..2]".into(), Value::Range(Box::new(Value::Null(None)), true, Box::new(num(2)), true)));
+    alphabet.push(("[1..null)".into(), Value::Range(Box::new(num(1)), true, Box::new(Value::Null(None)), false)));
   }
   // dates outside chrono's year range: constructed through the public API
   for (y, m, d) in [(999_999i32, 1u8, 1u8), (999_999, 1, 2), (-999_999, 12, 31), (262_143, 12, 31), (262_144, 1, 1)] {
@@ -294,6 +383,8 @@ pub fn run(cfg: &Cfg) -> Report {
     ("le", "a <= b", prepared("a <= b")),
     ("gt", "a > b", prepared("a > b")),
     ("ge", "a >= b", prepared("a >= b")),
+    // the right operand as it is: a list, a range or a unary comparison bound to a name, any other value
+    ("in", "a in b", prepared("a in b")),
     // unary tests, positive and negated (decision table input entries)
     ("in_eq", "a in (b)", prepared_in("b")),
     ("in_lt", "a in (< b)", prepared_in("< b")),
@@ -380,6 +471,7 @@ pub fn run(cfg: &Cfg) -> Report {
         let kind = match (&a.1, &b.1) {
           (Value::Null(_), _) | (_, Value::Null(_)) => "equality not symmetric (null operand)",
           (Value::Context(_), Value::Context(_)) => "equality not symmetric (contexts)",
+          (Value::Range(..), Value::Range(..)) => "equality not symmetric (ranges)",
           _ => "equality not symmetric",
         };
         rep.disagree(Kind::ImplVsSpec, "eq_symm", kind, &txt, &show(&results[i_eq][i][j]), &show(&results[i_eq][j][i]));
@@ -412,6 +504,151 @@ pub fn run(cfg: &Cfg) -> Report {
             rep.disagree(Kind::ImplVsSpec, "le_iff_lt_or_eq", &format!("a <= b differs from (a < b or a = b) ({})", ka), &txt, &show(&results[i_le][i][j]), &format!("{:?}", want));
           }
         }
+      }
+    }
+  }
+  // ------------------------------------------------------------------ equality as an equivalence, on the implementation's answers
+  // (whatever the model says of them: a kind of value that becomes comparable must obey the same laws)
+  for i in 0..n {
+    let a = &alphabet[i];
+    let r = as_bool(&results[i_eq][i][i]);
+    // a value is never unequal to itself; a comparable value equals itself.  A list or context that holds a value
+    // `=` is not defined on (a range, a function) is outside both statements: the list arm reads the null of the
+    // item comparison as false.
+    if comparable(&a.1) {
+      if r != Some(true) {
+        rep.disagree(Kind::ImplVsSpec, "eq_refl", &format!("a comparable value is not equal to itself ({})", operand_class(&a.1)), &format!("a = {}, b = {}", a.0, a.0), &show(&results[i_eq][i][i]), "true");
+      }
+    } else if !matches!(a.1, Value::List(_) | Value::Context(_)) && r == Some(false) {
+      rep.disagree(Kind::ImplVsSpec, "eq_refl", &format!("a = a is false ({})", operand_class(&a.1)), &format!("a = {}, b = {}", a.0, a.0), "false", "true (or null where = is not defined)");
+    }
+    rep.evaluations += 1;
+  }
+  {
+    // transitivity over ALL triples of the alphabet, read off the table of pairs
+    let eq_true: Vec<Vec<usize>> = (0..n).map(|i| (0..n).filter(|j| as_bool(&results[i_eq][i][*j]) == Some(true)).collect()).collect();
+    let mut reported = 0;
+    for i in 0..n {
+      for &j in &eq_true[i] {
+        for &k in &eq_true[j] {
+          rep.evaluations += 1;
+          if as_bool(&results[i_eq][i][k]) != Some(true) && reported < 20 {
+            reported += 1;
+            let cls = if operand_class(&alphabet[i].1) == operand_class(&alphabet[k].1) { operand_class(&alphabet[i].1) } else { "mixed" };
+            rep.disagree(
+              Kind::ImplVsSpec,
+              "eq_trans",
+              &format!("equality not transitive ({})", cls),
+              &format!("a = {}, b = {}, c = {}: a = b and b = c are true", alphabet[i].0, alphabet[j].0, alphabet[k].0),
+              &show(&results[i_eq][i][k]),
+              "true",
+            );
+          }
+        }
+      }
+    }
+  }
+  // ------------------------------------------------------------------ `<` and `<=` as orders, on the implementation's answers
+  // (Lean: lt_trans, le_trans, le_antisymm, le_total, lt_of_lt_of_le - for all values)
+  {
+    let tr = |k: usize| -> Vec<Vec<usize>> { (0..n).map(|i| (0..n).filter(|j| as_bool(&results[k][i][*j]) == Some(true)).collect()).collect() };
+    let (lt_true, le_true) = (tr(i_lt), tr(i_le));
+    let mut reported = 0;
+    let mut fail = |rep: &mut Report, fam: &str, sig: &str, i: usize, j: usize, k: Option<usize>, got: &Value| {
+      if reported < 20 {
+        reported += 1;
+        let input = match k {
+          Some(k) => format!("a = {}, b = {}, c = {}", alphabet[i].0, alphabet[j].0, alphabet[k].0),
+          None => format!("a = {}, b = {}", alphabet[i].0, alphabet[j].0),
+        };
+        rep.disagree(Kind::ImplVsSpec, fam, sig, &input, &show(got), "true");
+      }
+    };
+    for i in 0..n {
+      for &j in &lt_true[i] {
+        for &k in &lt_true[j] {
+          rep.evaluations += 1;
+          if as_bool(&results[i_lt][i][k]) != Some(true) {
+            fail(&mut rep, "lt_trans", "a < b and b < c are true but a < c is not", i, j, Some(k), &results[i_lt][i][k]);
+          }
+        }
+        for &k in &le_true[j] {
+          if as_bool(&results[i_lt][i][k]) != Some(true) {
+            fail(&mut rep, "lt_of_lt_of_le", "a < b and b <= c are true but a < c is not", i, j, Some(k), &results[i_lt][i][k]);
+          }
+        }
+      }
+      for &j in &le_true[i] {
+        for &k in &le_true[j] {
+          rep.evaluations += 1;
+          if as_bool(&results[i_le][i][k]) != Some(true) {
+            fail(&mut rep, "le_trans", "a <= b and b <= c are true but a <= c is not", i, j, Some(k), &results[i_le][i][k]);
+          }
+        }
+        if as_bool(&results[i_le][j][i]) == Some(true) && as_bool(&results[i_eq][i][j]) != Some(true) {
+          fail(&mut rep, "le_antisymm", "a <= b and b <= a are true but a = b is not", i, j, None, &results[i_eq][i][j]);
+        }
+      }
+      for j in 0..n {
+        if let (Some(ka), Some(kb)) = (ordered_kind(&alphabet[i].1), ordered_kind(&alphabet[j].1)) {
+          if ka == kb && as_bool(&results[i_le][i][j]) != Some(true) && as_bool(&results[i_le][j][i]) != Some(true) {
+            fail(&mut rep, "le_total", &format!("neither a <= b nor b <= a is true ({})", ka), i, j, None, &results[i_le][i][j]);
+          }
+        }
+      }
+    }
+  }
+  // ------------------------------------------------------------------ a range or a unary comparison bound to a name
+  // `a in b` with b a range value is `a in <lo..hi>` written out with the same brackets; with b a unary comparison
+  // it is that comparison.  (The written-out forms are judged against the comparisons by the triples below.)
+  {
+    let i_in = idx("in");
+    let pos_of = |v: &Value| -> Option<usize> { let t = show(v); alphabet.iter().position(|(_, x)| show(x) == t) };
+    for j in 0..n {
+      match &alphabet[j].1 {
+        Value::Range(lo, lc, hi, rc) => {
+          let ev = &ev_in.iter().find(|(l, r, _)| l == lc && r == rc).unwrap().2;
+          for i in 0..n {
+            let scope = scope_of(&[("a", &alphabet[i].1), ("b", lo), ("c", hi)]);
+            let lit = guarded(|| ev(&scope)).unwrap_or(Value::Null(Some("panic".into())));
+            rep.evaluations += 1;
+            if as_bool(&lit) != as_bool(&results[i_in][i][j]) {
+              rep.disagree(
+                Kind::ImplVsSpec,
+                "in_range_value",
+                "x in r with the range r bound to a name differs from x in the same range written out",
+                &format!("a in b with a = {}, b = {}", alphabet[i].0, alphabet[j].0),
+                &show(&results[i_in][i][j]),
+                &show(&lit),
+              );
+            }
+          }
+        }
+        Value::UnaryLess(x) | Value::UnaryLessOrEqual(x) | Value::UnaryGreater(x) | Value::UnaryGreaterOrEqual(x) => {
+          let (op, name) = match &alphabet[j].1 {
+            Value::UnaryLess(_) => (i_lt, "<"),
+            Value::UnaryLessOrEqual(_) => (i_le, "<="),
+            Value::UnaryGreater(_) => (i_gt, ">"),
+            _ => (i_ge, ">="),
+          };
+          if let Some(k) = pos_of(x) {
+            for i in 0..n {
+              rep.evaluations += 1;
+              let want = as_bool(&results[op][i][k]) == Some(true);
+              if (as_bool(&results[i_in][i][j]) == Some(true)) != want {
+                rep.disagree(
+                  Kind::ImplVsSpec,
+                  "in_unary_value",
+                  &format!("x in ({} y) holds where x {} y does not (or the reverse)", name, name),
+                  &format!("a in b with a = {}, b = {}", alphabet[i].0, alphabet[j].0),
+                  &show(&results[i_in][i][j]),
+                  &format!("{}", want),
+                );
+              }
+            }
+          }
+        }
+        _ => {}
       }
     }
   }
